@@ -1,11 +1,92 @@
 package main
 
-import "fmt"
+import (
+	"fmt"
+	"os"
+	"os/exec"
+	"path/filepath"
 
-var schedAvailable = false
+	"verif/engine/rewrite"
+)
 
-func buildSched(b *built, race bool) error {
-	return fmt.Errorf("sched engine not built yet")
+var schedAvailable = true
+
+var repoRoot = "/repo"
+
+// shim packages are compiled without race instrumentation in race mode so
+// that the scheduler's own hand-offs and bookkeeping add no happens-before edges
+var uninstrumented = []string{
+	"verif/engine/vs", "verif/engine/vsync", "verif/engine/vctx", "verif/engine/vtime",
+	"verif/engine/vrand", "verif/engine/vpipe", "verif/engine/explore",
 }
 
-func cmdPassthrough() int { return engineError("not implemented") }
+func genOverlay(b *built) (string, error) {
+	ov := filepath.Join(b.dir, "ov")
+	if _, err := os.Stat(filepath.Join(ov, "overlay.json")); err == nil {
+		return filepath.Join(ov, "overlay.json"), nil
+	}
+	if err := os.MkdirAll(ov, 0o755); err != nil {
+		return "", err
+	}
+	if r := os.Getenv("VERIF_REPO"); r != "" {
+		repoRoot = r
+	}
+	return rewrite.Generate(repoRoot, ov, []string{"verif"})
+}
+
+func buildSched(b *built, race bool) error {
+	overlay, err := genOverlay(b)
+	if err != nil {
+		return fmt.Errorf("rewriter: %v", err)
+	}
+	out := filepath.Join(b.dir, "schedw")
+	args := []string{"build", "-tags", "verif", "-overlay", overlay}
+	if race {
+		out = filepath.Join(b.dir, "schedw-race")
+		args = append(args, "-race")
+		for _, p := range uninstrumented {
+			args = append(args, "-gcflags="+p+"=-race=false")
+		}
+	}
+	args = append(args, "-o", out, "./cmd/schedw")
+	cmd := exec.Command("go", args...)
+	cmd.Dir = root
+	cmd.Env = goEnv()
+	o, err := cmd.CombinedOutput()
+	if err != nil {
+		return fmt.Errorf("building schedw (race=%v): %v\n%s", race, err, o)
+	}
+	if race {
+		b.race = out
+	} else {
+		b.sched = out
+	}
+	return nil
+}
+
+// cmdPassthrough runs the repository's own tests over the rewritten sources
+// with no world attached: every shim operation performs the real Go operation.
+// This validates the rewriter independently of the scheduler.
+func cmdPassthrough() int {
+	dir, err := tmpDir()
+	if err != nil {
+		return engineError("%v", err)
+	}
+	b := &built{dir: dir}
+	defer b.cleanup()
+	overlay, err := genOverlay(b)
+	if err != nil {
+		return engineError("rewriter: %v", err)
+	}
+	cmd := exec.Command("go", "test", "-tags", "verif", "-overlay", overlay, "-vet=off", "-count=1", "nhooyr.io/websocket/...")
+	cmd.Dir = root
+	cmd.Env = goEnv()
+	cmd.Stdout = os.Stdout
+	cmd.Stderr = os.Stderr
+	if err := cmd.Run(); err != nil {
+		fmt.Println("PASSTHROUGH FAILED:", err)
+		return 2
+	}
+	fmt.Println("passthrough ok: repository tests pass over the rewritten sources")
+	return 0
+}
